@@ -248,9 +248,51 @@ class ProxyLock:
         self.release()
 
 
-def unbuilt_schema(xmlschema, version):
+STREAM = {'sched': None, 'free': False}
+
+
+def chunked_stream(data, chunk):
+    """a seekable binary stream with short reads; every read is a point where the thread may lose the processor, as a
+    read from a file, pipe or socket is (the controlled scheduler decides there, free-running threads yield)"""
+    import io
+
+    class Chunked(io.BytesIO):
+        def read(self, n=-1):
+            if STREAM['sched'] is not None:
+                STREAM['sched'].yield_point()
+            elif STREAM['free']:
+                time.sleep(0)
+            return super().read(chunk if n is None or n < 0 or n > chunk else n)
+    return Chunked(data)
+
+
+def apply_op(xmlschema, schema, op, doc, arg):
+    """C10 pool plus the stream family: calls on a shared schema created with defuse='always' whose source is a stream"""
+    if not op.startswith('stream_'):
+        return c10.apply_op(xmlschema, schema, op, doc, arg)
+    src = chunked_stream(doc['xml'].encode(), 24 + 8 * (arg % 4))
+    try:
+        if op == 'stream_is_valid':
+            return schema.is_valid(src)
+        if op == 'stream_iter_errors':
+            return sorted(c10.canon_err(e) for e in schema.iter_errors(src))
+        r = schema.decode(src, validation='lax')
+        return [c10.canon_data(r[0]), sorted(c10.canon_err(e) for e in r[1])]
+    except Exception as e:  # noqa
+        return 'EXC %s: %s' % (common.exc_class(e), ' '.join(str(e).split())[:100])
+
+
+def seq_schema(xmlschema, case):
+    if case.get('family') != 'streams':
+        return c10.make_schema(xmlschema, case['version'])
+    s = unbuilt_schema(xmlschema, case['version'], defuse='always')
+    s.build()
+    return s
+
+
+def unbuilt_schema(xmlschema, version, **kw):
     cls = xmlschema.XMLSchema11 if version == '1.1' else xmlschema.XMLSchema10
-    s = cls(c10.schema_text(version), build=False)
+    s = cls(c10.schema_text(version), build=False, **kw)
     s.add_schema(c10.OTHER, namespace=c10.ONS)
     s.add_schema(c10.OTHER2, namespace=c10.ONS2)
     return s
@@ -265,7 +307,7 @@ def thread_programs(xmlschema, schema, case, results):
             try:
                 schema.build()
                 for op, di, arg in prog:
-                    out.append(c10.apply_op(xmlschema, schema, op, docs[di], arg))
+                    out.append(apply_op(xmlschema, schema, op, docs[di], arg))
             except Stall:
                 raise
             except BaseException as e:  # noqa
@@ -291,7 +333,7 @@ def baseline(xmlschema, case):
         for op, di, arg in prog:
             key = (op, di, arg)
             if key not in memo:
-                memo[key] = c10.apply_op(xmlschema, c10.make_schema(xmlschema, case['version']), op, docs[di], arg)
+                memo[key] = apply_op(xmlschema, seq_schema(xmlschema, case), op, docs[di], arg)
             r.append(memo[key])
         out.append(r)
     return out
@@ -304,7 +346,7 @@ def subject(case):
     warnings.simplefilter('ignore')
     locate_build()
     base = baseline(xmlschema, case)
-    schema = unbuilt_schema(xmlschema, case['version'])
+    schema = unbuilt_schema(xmlschema, case['version'], **({'defuse': 'always'} if case.get('family') == 'streams' else {}))
     n = len(case['programs'])
     results = [None] * n
     out = {'baseline_ok': True}
@@ -313,11 +355,16 @@ def subject(case):
         sched.target = schema.maps
         object.__setattr__(schema.maps, '_build_lock', ProxyLock(sched, 'build'))
         schema.maps.cache._lock = ProxyLock(sched, 'cache')
-        sched.run(thread_programs(xmlschema, schema, case, results))
+        STREAM['sched'] = sched
+        try:
+            sched.run(thread_programs(xmlschema, schema, case, results))
+        finally:
+            STREAM['sched'] = None
         out.update(switches=sched.switches, points=sched.points, events=sched.events, error=sched.error)
     else:
         old = sys.getswitchinterval()
         sys.setswitchinterval(1e-6)
+        STREAM['free'] = True
         try:
             barrier = threading.Barrier(n)
             fns = thread_programs(xmlschema, schema, case, results)
@@ -329,6 +376,7 @@ def subject(case):
             out.update(switches=None, points=None, events=[], error='stall: a free-running thread did not finish' if any(t.is_alive() for t in ths) else None)
         finally:
             sys.setswitchinterval(old)
+            STREAM['free'] = False
     out['mismatch'] = None
     for i in range(n):
         if results[i] is None:
@@ -345,7 +393,7 @@ def subject(case):
             out['mismatch'] = {'thread': i, 'step': len(base[i]), 'got': results[i][-1:], 'want': 'no further result'}
             break
     # the global components after the race equal those of a sequential build
-    seq = c10.make_schema(xmlschema, case['version'])
+    seq = seq_schema(xmlschema, case)
     out['globals_equal'] = sorted(c.name or '' for c in schema.maps.iter_globals()) == sorted(c.name or '' for c in seq.maps.iter_globals())
     out['built'] = bool(schema.built)
     return out
@@ -491,6 +539,23 @@ def gen(ctx):
                         for _ in range(n)]
         cases.append({'seed': seed, 'version': '1.1' if i % 3 else '1.0', 'docs': docs, 'programs': programs, 'mode': 'controlled',
                       'p': r.choice([0.05, 0.2, 0.5]), 'family': 'scratch' if i % 2 else 'registration'})
+    # (c) the source of every call is a stream with short reads and the shared schema defuses always: documents with a
+    # long prolog, with or without a DOCTYPE that declares an entity (refused sequentially)
+    for i in range(80 if q else 800):
+        seed = ctx.rng.randrange(10 ** 9)
+        r = random.Random(seed)
+        n = r.randint(2, 4)
+        docs = []
+        for k in range(r.randint(2, 4)):
+            d = c10.gen_doc(r)
+            pro = '<?xml version="1.0"?><!-- %s -->' % ('x' * r.randint(30, 120))
+            if k == 0 or r.random() < 0.4:
+                pro += '<!DOCTYPE %s [<!ENTITY e "x">]>' % d['root']
+            docs.append(dict(d, xml=pro + d['xml']))
+        programs = [[[r.choice(['stream_is_valid', 'stream_iter_errors', 'stream_decode']), r.randrange(len(docs)), r.randint(0, 7)]
+                     for _ in range(r.randint(1, 3))] for _ in range(n)]
+        cases.append({'seed': seed, 'version': '1.1' if i % 3 else '1.0', 'docs': docs, 'programs': programs,
+                      'mode': 'controlled' if i % 5 else 'free', 'p': r.choice([0.2, 0.5, 0.8]), 'family': 'streams'})
     return cases
 
 
@@ -500,7 +565,8 @@ def run(ctx):
                 'probability 0.002-0.2 at every function call inside xmlschema/ and elementpath/ and every line of '
                 'XsdGlobals.build; lock proxies), 1 of 4 free-running with switch interval 1e-6 s; every result compared with the '
                 'sequential baseline, the global components with a sequential build, the protocol log of build() replayed in the '
-                'Coq model; evaluations = calls; non-trivial = every run')
+                'Coq model; stream family: the shared schema defuses always and every source is a stream with short reads, each read a '
+                'switch point; evaluations = calls; non-trivial = every run')
     evaluate(ctx, gen(ctx))
     ctx.assumptions = ['PARTIAL: the locking protocol is proved for all schedules; neutrality of the shared caches, the scratch context '
                        'and the post-flag tail under real interleavings is explored by the scheduler (switches at function-call '
